@@ -344,7 +344,7 @@ func main() {
 		r.WriteGen("C01_Tables.lean", genTables())
 		return
 	}
-	nProg, nMut, nHist, batchSize := 90, 30, 6, 8
+	nProg, nMut, nHist, batchSize := 70, 24, 6, 8
 	if r.Thorough {
 		nProg, nMut, nHist, batchSize = 2600, 1200, 12, 12
 	}
@@ -421,11 +421,18 @@ func main() {
 	var cps []cpSpec
 	for _, base := range []string{"u8", "u16", "u32", "u64"} {
 		_, hi := baseBounds(base)
-		for _, v := range []int64{0, 1, 255, 65535, 0x7FFFFFFF, 0xFFFFFFFF} {
+		vals := []int64{1, 255, 0xFFFFFFFF}
+		if r.Thorough {
+			vals = []int64{0, 1, 2, 255, 256, 65535, 65536, 0x7FFFFFFF, 0x80000000, 0xFFFFFFFF}
+		}
+		for _, v := range vals {
 			k := big.NewInt(v)
 			if k.Cmp(hi) <= 0 {
 				cps = append(cps, cpSpec{base, k})
 			}
+		}
+		if base != "u64" && base != "u8" {
+			cps = append(cps, cpSpec{base, new(big.Int).Set(hi)})
 		}
 		if base == "u64" {
 			cps = append(cps, cpSpec{base, new(big.Int).Set(hi)})
